@@ -475,3 +475,84 @@ Definition oracle (pmt : bytes -> pm_result) (sch : schema) (rq : request)
                end
       end
   end.
+
+(** ** 4. The documented status rules as predicates on (schema, request): when a request addresses
+    something unknown, asks for an operation the resource type does not define, or carries a
+    conflicting resource object.  (Each presupposes that negotiation and the query parameters are
+    through; rules about request documents presuppose a decodable document.) *)
+Definition related_or_relationship (sch : schema) (rq : request) (t : rtype) (id name : bytes) : Prop :=
+  endpoint_of sch (rq_path rq) = ERelated t id name \/ endpoint_of sch (rq_path rq) = ERelationship t id name.
+
+Inductive unknown_target (sch : schema) (rq : request) : Prop :=
+| U_endpoint :                       (* unknown type, or a path shape the library does not serve *)
+    endpoint_of sch (rq_path rq) = EUnknown -> unknown_target sch rq
+| U_collection t :                   (* collections can only be POSTed to *)
+    endpoint_of sch (rq_path rq) = ECollection t -> rq_method rq <> s_POST -> unknown_target sch rq
+| U_resource t id g :                (* no resource with that id *)
+    endpoint_of sch (rq_path rq) = EResource t id -> rq_method rq = s_GET ->
+    rt_get t = Some g -> g id = HNil -> unknown_target sch rq
+| U_parent t id name :               (* the parent resource cannot be fetched or does not exist *)
+    related_or_relationship sch rq t id name -> rq_method rq = s_GET ->
+    parent t id = inr [404] -> unknown_target sch rq
+| U_relationship t id name v :       (* the parent has no relationship of that name *)
+    related_or_relationship sch rq t id name -> rq_method rq = s_GET ->
+    parent t id = inl v -> lookup_rel t name = None -> unknown_target sch rq.
+
+Inductive undefined_operation (sch : schema) (rq : request) : Prop :=
+| O_resource_method t id :
+    endpoint_of sch (rq_path rq) = EResource t id ->
+    rq_method rq <> s_GET -> rq_method rq <> s_PATCH -> rq_method rq <> s_DELETE -> undefined_operation sch rq
+| O_related_method t id name :
+    endpoint_of sch (rq_path rq) = ERelated t id name ->
+    rq_method rq <> s_GET -> rq_method rq <> s_PATCH -> undefined_operation sch rq
+| O_relationship_method t id name :
+    endpoint_of sch (rq_path rq) = ERelationship t id name ->
+    rq_method rq <> s_GET -> rq_method rq <> s_PATCH -> rq_method rq <> s_POST -> rq_method rq <> s_DELETE ->
+    undefined_operation sch rq
+| O_get t id :
+    endpoint_of sch (rq_path rq) = EResource t id -> rq_method rq = s_GET -> rt_get t = None ->
+    undefined_operation sch rq
+| O_delete t id :
+    endpoint_of sch (rq_path rq) = EResource t id -> rq_method rq = s_DELETE -> rt_delete t = None ->
+    undefined_operation sch rq
+| O_patch t id doc :
+    endpoint_of sch (rq_path rq) = EResource t id -> rq_method rq = s_PATCH ->
+    decode_body (dec_resource_request true) (rq_body rq) = Some doc -> pd_type doc = rt_name t -> pd_id doc = id ->
+    rt_patch t = None -> undefined_operation sch rq
+| O_create t doc :
+    endpoint_of sch (rq_path rq) = ECollection t -> rq_method rq = s_POST ->
+    decode_body (dec_resource_request false) (rq_body rq) = Some doc -> pd_type doc = rt_name t ->
+    rt_create t = None -> undefined_operation sch rq
+| O_replace_linkage t id name value :
+    endpoint_of sch (rq_path rq) = ERelationship t id name -> rq_method rq = s_PATCH ->
+    decode_body dec_relationship_data (rq_body rq) = Some value -> rt_patch t = None -> undefined_operation sch rq
+| O_members_to_one t id name members v d by_default f :
+    endpoint_of sch (rq_path rq) = ERelationship t id name -> (rq_method rq = s_POST \/ rq_method rq = s_DELETE) ->
+    decode_body dec_members (rq_body rq) = Some members -> parent t id = inl v -> lookup_rel t name = Some d ->
+    rd_resolver d = ToOne by_default f -> undefined_operation sch rq
+| O_add_members t id name members v d by_default f remove :
+    endpoint_of sch (rq_path rq) = ERelationship t id name -> rq_method rq = s_POST ->
+    decode_body dec_members (rq_body rq) = Some members -> parent t id = inl v -> lookup_rel t name = Some d ->
+    rd_resolver d = ToMany by_default f None remove -> undefined_operation sch rq
+| O_remove_members t id name members v d by_default f add :
+    endpoint_of sch (rq_path rq) = ERelationship t id name -> rq_method rq = s_DELETE ->
+    decode_body dec_members (rq_body rq) = Some members -> parent t id = inl v -> lookup_rel t name = Some d ->
+    rd_resolver d = ToMany by_default f add None -> undefined_operation sch rq.
+
+Inductive conflict (sch : schema) (rq : request) : Prop :=
+| K_create t doc :
+    endpoint_of sch (rq_path rq) = ECollection t -> rq_method rq = s_POST ->
+    decode_body (dec_resource_request false) (rq_body rq) = Some doc -> pd_type doc <> rt_name t -> conflict sch rq
+| K_update t id doc :
+    endpoint_of sch (rq_path rq) = EResource t id -> rq_method rq = s_PATCH ->
+    decode_body (dec_resource_request true) (rq_body rq) = Some doc ->
+    (pd_type doc <> rt_name t \/ pd_id doc <> id) -> conflict sch rq
+| K_update_related t id name v d r t' doc :
+    endpoint_of sch (rq_path rq) = ERelated t id name -> rq_method rq = s_PATCH ->
+    parent t id = inl v -> lookup_rel t name = Some d -> linkage_of d v = Ok (LOne r) ->
+    lookup_type sch (r_type r) = Some t' ->
+    decode_body (dec_resource_request true) (rq_body rq) = Some doc ->
+    (pd_type doc <> r_type r \/ pd_id doc <> r_id r) -> conflict sch rq.
+
+(** what a request without errors is about: used to state identity in plain terms *)
+Definition answer_status (o : outcome) : option Z := match o with Resp st _ _ _ => Some st | Panic => None end.
